@@ -241,6 +241,19 @@ def run_property(pid, tier="quick", seed=0, relock=False, only=None, verbose=Tru
     return res, kinds_now
 
 
+GRID_PROPS = ("C03", "C04", "C05", "C06", "C10", "C11", "C15", "C19")
+_GRID_CACHE = {}
+
+
+def grid_search(pid, seed):
+    """Failing command lines for this property from the command-line grid (run once per check run)."""
+    key = (pid, seed)
+    if key not in _GRID_CACHE:
+        r = run_native("cli_grid.py", {"seed": seed + 1000, "count": 120, "props": [pid]}, timeout=3000)
+        _GRID_CACHE[key] = r["json"] or {}
+    return [f for f in _GRID_CACHE[key].get("failures", []) if f.get("property") == pid]
+
+
 def replay_violation(pid, v, mod, seed):
     """Try to turn a failed obligation into a failing native input."""
     o = v["o"]
@@ -259,13 +272,10 @@ def replay_violation(pid, v, mod, seed):
         if r["json"] and r["json"].get("failures"):
             found = r["json"]["failures"][0]
             data["failing_input"] = found
-    grid = getattr(c, "replay_grid", None) if c is not None else None
-    if found is None and grid and pid in grid:
-        # contracts on the command-line builder: look for a failing command line with the oracles of this property
-        r = run_native("cli_grid.py", {"seed": seed + 1000, "count": 120, "props": [pid]}, timeout=3000)
-        js = r["json"] or {}
-        mine = [f for f in js.get("failures", []) if f.get("property") == pid]
-        data["grid_search"] = {"cases": js.get("cases"), "failures": mine[:3]}
+    if found is None and pid in GRID_PROPS:
+        # no runtime form of this contract gave an input: look for a failing command line with this property's oracles
+        mine = grid_search(pid, seed)
+        data["grid_search"] = {"cases": _GRID_CACHE[(pid, seed)].get("cases"), "failures": mine[:3]}
         if mine:
             found = mine[0]
             data["failing_input"] = found
